@@ -1,6 +1,6 @@
 CONSTANTS
   Sigs = {"TERM", "CHLD", "SEGV"}
-  Hids = {1, 2}
+  Hids = {1}
   Threads = {0, 1}
   MaxRaise = 3
   SelfBlock = TRUE
